@@ -846,7 +846,7 @@ def flag_worker(job):
 
 
 # ---- (f) every accepted FORM of an input spec x dtype x flag x ambient x64, on programs whose constants are not float32 values
-FORM_PROGRAMS = ("affine", "pi", "fori_body", "cond_branches", "scan_body", "while_body", "function_body")
+FORM_PROGRAMS = ("affine", "pi", "weak_literal_operands", "fori_body", "cond_branches", "scan_body", "while_body", "function_body")
 _FORMS_INNER = None
 
 
@@ -860,6 +860,10 @@ def _forms_program(name):
         return lambda x: jnp.tanh(x * 0.1 + 1.0 / 3.0) / 0.7 - 1e-3 * x
     if name == "pi":
         return lambda x: jnp.sin(x * np.pi) + 0.7
+    if name == "weak_literal_operands":
+        # Python floats handed to library helpers (where / clip / maximum) reach the converter as weakly typed scalar LITERAL
+        # operands of a nested call, a different route from constants folded into the traced expression
+        return lambda x: jnp.where(x > 0.0, x, 0.7) + jnp.clip(x, 0.1, 0.9) + jnp.maximum(x, 1.0 / 3.0)
     if name == "fori_body":
         return lambda x: lax.fori_loop(0, 3, lambda i, c: c * 0.9 + 0.1, x)
     if name == "cond_branches":
@@ -1293,7 +1297,7 @@ def run(ctx):
         flag_idents = exports.select_indices(total, 4 if quick else 40, ctx.seed + 2)
         combos = [(False, False), (False, True), (True, False), (True, True)]
         flag_async = [pool.apply_async(flag_worker, ((ctx.seed, flag_idents, [c], k == 0),)) for k, c in enumerate(combos)]
-        progs = list(FORM_PROGRAMS[:4]) if quick else list(FORM_PROGRAMS)
+        progs = list(FORM_PROGRAMS[:5]) if quick else list(FORM_PROGRAMS)
         forms_async = [pool.apply_async(forms_worker, ((dp_, amb_, progs[k::2], ctx.seed),))
                        for dp_ in (False, True) for amb_ in (False, True) for k in (0, 1)]
         res_async = pool.map_async(export_worker, jobs, chunksize=max(1, min(6, len(jobs) // (procs * 8))))
